@@ -30,7 +30,8 @@ class PCN(Sampler):  # Refactor to Proposal-based sampler?
     def step(self):
         # propose state
         xi = self.prior.sample(1).flatten()   # sample from the prior
-        x_star = np.sqrt(1-self.scale**2)*self.current_point + self.scale*xi   # PCN proposal
+        mean = self.prior.mean # the proposal must preserve the prior N(mean, C), also for a non-zero mean
+        x_star = mean + np.sqrt(1-self.scale**2)*(self.current_point-mean) + self.scale*(xi-mean)   # PCN proposal
 
         # evaluate target
         loglike_eval_star =  self._loglikelihood(x_star) 
